@@ -6,6 +6,21 @@ props = [json.loads(l) for l in open(os.path.join(HERE, 'properties.jsonl'))]
 
 # id -> (category, technique, level text, level note)
 CHECKS = {
+ 'C01': ('exploration', 'Hypothesis property test: snapshot/restore round trip against a harness-computed recorded set, with an independent reader of the raw objects',
+         'Generated (settings, concurrency, backend, tree, argument list, target pre-state) cases; the restored tree must equal the model exactly and the independent reader must reassemble the same bytes. Exploration over an unbounded input x configuration space.',
+         'Trusts tmpfs semantics, the in-memory backends, vk/refimpl.py and cryptography primitives.'),
+ 'C02': ('exploration', 'Hypothesis stateful (rule-based) machine over multi-user histories with an independent-reader invariant after every step',
+         'Model-based generation of snapshot/delete/clean/add-key histories incl. overlapping non-destructive commands and long-lived Repository objects; every live snapshot is decoded from raw objects and compared with what was captured, and periodically restored by replicat itself.',
+         'Trusts vk/refimpl.py, the in-memory backend, and that destructive commands are not overlapped (README).'),
+ 'C06': ('exploration', 'Hypothesis stateful machine over key graphs with cross-user attempts, checked against a key-graph model',
+         'Generated key graphs (shared/clone/independent, several KDFs) and histories with wrong-credential unlocks, foreign delete/restore/list attempts, on fresh and re-unlocked Repository objects; visibility, refusal and confinement are compared with the model.',
+         'Trusts vk/refimpl.py ownership computation (MAC tags) and the in-memory backend.'),
+ 'C07': ('exploration', 'Hypothesis stateful machine; set equality between stored chunk objects and referenced chunks per key family, upload counters for repeated snapshots',
+         'After every step of crash-free multi-user histories the chunk objects of each family must be exactly the referenced ones (both inclusions) and repeated / family-mate snapshots must upload no payload.',
+         'Trusts vk/refimpl.py and the upload log of the in-memory backend.'),
+ 'C08': ('exploration', 'Hypothesis stateful machine with planted orphans / foreign objects and injected delete failures; completeness and confinement oracles',
+         'Delete and clean are checked for completeness (nothing unreferenced left) and confinement (every changed object within what the command may touch) on generated multi-family states, incl. commands whose n-th backend delete fails for good.',
+         'Trusts vk/refimpl.py; orphans are planted in replicat\'s own format.'),
  'C10': ('exploration', 'Hypothesis property tests (round trip, bounds, metamorphic guard-byte and re-segmentation relations) + libFuzzer/ASan/UBSan target with the oracle compiled in',
          'Generated (min,max,key,data,segmentation) cases against the chunker compiled from src/adapters.cpp of the working tree, at adapter and next_cut level, plus coverage-guided native fuzzing under sanitizers. Exploration, not proof: it samples the input space with boundary-biased generators.',
          'Trusts the stand-in pybind11 header (pointer+size buffers), g++/clang sanitizers, Hypothesis; x86-64 PCLMUL.'),
